@@ -1,4 +1,5 @@
 pub mod c04;
+pub mod c05;
 pub mod c07;
 pub mod c08;
 pub mod c09;
@@ -13,5 +14,5 @@ pub mod c17;
 pub mod c18;
 
 pub fn all() -> Vec<crate::Prop> {
-    vec![c04::prop(), c07::prop(), c08::prop(), c09::prop(), c10::prop(), c11::prop(), c12::prop(), c13::prop(), c14::prop(), c15::prop(), c16::prop(), c17::prop(), c18::prop()]
+    vec![c04::prop(), c05::prop(), c07::prop(), c08::prop(), c09::prop(), c10::prop(), c11::prop(), c12::prop(), c13::prop(), c14::prop(), c15::prop(), c16::prop(), c17::prop(), c18::prop()]
 }
